@@ -45,6 +45,7 @@ type c16Flight struct {
 	Callers   []c16Caller `json:"callers"`
 	Scripts   []c16Script `json:"scripts"`
 	CacheFail int         `json:"cache_fail,omitempty"` // the first k cache writes whose document contains Name are refused
+	Store     int         `json:"store,omitempty"`      // which Store of the process (each has its own service, client and cache)
 }
 
 type c16Input struct {
@@ -185,37 +186,44 @@ func c16Apply(ctx context.Context, st *setec.Store, name string) (setec.Secret, 
 
 // c16Call runs one entry point; returns the value token read through the handle (or -1)
 func c16Call(ctx context.Context, st *setec.Store, ep int, name string) (tok int, nilHandle bool, err error) {
+	tok, nilHandle, _, err = c16Call2(ctx, st, ep, name)
+	return
+}
+
+// c16Call2 also returns how to read the value again later through what the call handed out (the handle,
+// or the Updater's Get)
+func c16Call2(ctx context.Context, st *setec.Store, ep int, name string) (tok int, nilHandle bool, again func() int, err error) {
 	switch ep {
 	case 0:
 		h := st.Secret(name)
 		if h == nil {
-			return -1, true, nil
+			return -1, true, nil, nil
 		}
-		return c16Tok(h.Get()), false, nil
+		return c16Tok(h.Get()), false, func() int { return c16Tok(h.Get()) }, nil
 	case 1:
 		h, err := st.LookupSecret(ctx, name)
 		if err != nil {
-			return -1, false, err
+			return -1, false, nil, err
 		}
 		if h == nil {
-			return -1, true, nil
+			return -1, true, nil, nil
 		}
-		return c16Tok(h.Get()), false, nil
+		return c16Tok(h.Get()), false, func() int { return c16Tok(h.Get()) }, nil
 	case 2:
 		u, err := setec.NewUpdater(ctx, st, name, func(b []byte) (int, error) { return c16Tok(b), nil })
 		if err != nil {
-			return -1, false, err
+			return -1, false, nil, err
 		}
-		return u.Get(), false, nil
+		return u.Get(), false, func() int { return u.Get() }, nil
 	default:
 		h, err := c16Apply(ctx, st, name)
 		if err != nil {
-			return -1, false, err
+			return -1, false, nil, err
 		}
 		if h == nil {
-			return -1, true, nil
+			return -1, true, nil, nil
 		}
-		return c16Tok(h.Get()), false, nil
+		return c16Tok(h.Get()), false, func() int { return c16Tok(h.Get()) }, nil
 	}
 }
 
@@ -241,6 +249,7 @@ type c16Svc struct {
 	logging bool
 	probe   bool // after the scenario: every Get is counted and answered "not found" at once
 	after   bool // during the final Refresh: a plain Get is a poll request (version 0), answered at once
+	bumped  map[string]bool // after the scenario the service activated a new version of the name: polls see it
 	// every wait of the service is bounded by the scenario's own end: when the harness calls release(), the
 	// requests that are STILL waiting (their context never ended although every caller has returned) are
 	// answered with an error and reported
@@ -348,13 +357,36 @@ func (s *c16Svc) GetIfChanged(ctx context.Context, name string, old api.SecretVe
 	if s.pollver != nil {
 		s.pollver[name] = uint32(old)
 	}
-	if _, ok := s.static[name]; ok {
+	if sv, ok := s.static[name]; ok {
+		if s.bumped[name] && api.SecretVersion(sv.ver) != old {
+			return &api.SecretValue{Value: c16Value(name, sv.tok), Version: api.SecretVersion(sv.ver)}, nil
+		}
 		return nil, api.ErrValueNotChanged
 	}
-	if _, ok := s.vals[name]; ok {
+	if sv, ok := s.vals[name]; ok {
+		if s.bumped[name] && api.SecretVersion(sv.ver) != old {
+			return &api.SecretValue{Value: c16Value(name, sv.tok), Version: api.SecretVersion(sv.ver)}, nil
+		}
 		return nil, api.ErrValueNotChanged
 	}
 	return nil, api.ErrNotFound
+}
+
+// bump: the service activates a new version of a secret it has (reports whether it has it)
+func (s *c16Svc) bump(name string, tok int) bool {
+	s.mu.Lock()
+	defer s.mu.Unlock()
+	if sv, ok := s.static[name]; ok {
+		s.static[name] = c16SV{ver: sv.ver + 1, tok: tok}
+		s.bumped[name] = true
+		return true
+	}
+	if sv, ok := s.vals[name]; ok {
+		s.vals[name] = c16SV{ver: sv.ver + 1, tok: tok}
+		s.bumped[name] = true
+		return true
+	}
+	return false
 }
 
 var c16ErrReleased = errors.New("request released by the harness at the end of the scenario")
@@ -388,7 +420,7 @@ func (s *c16Svc) finish() {
 }
 
 func c16NewSvc() *c16Svc {
-	return &c16Svc{stop: make(chan struct{}), final: make(chan struct{}), open: map[int]string{}, static: map[string]c16SV{"a": {ver: 1, tok: 100}}, scripts: map[string][]c16Script{}, vals: map[string]c16SV{},
+	return &c16Svc{bumped: map[string]bool{}, stop: make(chan struct{}), final: make(chan struct{}), open: map[int]string{}, static: map[string]c16SV{"a": {ver: 1, tok: 100}}, scripts: map[string][]c16Script{}, vals: map[string]c16SV{},
 		log: map[string][]string{}, conc: map[string]int{}, maxc: map[string]int{}, polled: map[string]bool{}}
 }
 
@@ -486,6 +518,8 @@ const c16Decl = "[([x61], 1, 100)]"
 func c16Policy(t *testing.T, in c16Input) Record {
 	cls, nreq, tok := -1, 0, 0
 	aSecret, aCached, aPolled, nreq2 := false, false, false, 0
+	bumpTok, afterTok := 950, 0
+	var again func() int
 	svcHas := "None"
 	bubble(t, func(t *testing.T) {
 		svc := c16NewSvc()
@@ -534,7 +568,8 @@ func c16Policy(t *testing.T, in c16Input) Record {
 					cls = 2
 				}
 			}()
-			tk, isNil, err := c16Call(ctx, st, in.EP, in.Name)
+			tk, isNil, re, err := c16Call2(ctx, st, in.EP, in.Name)
+			again = re
 			switch {
 			case err != nil:
 				cls = 3
@@ -550,7 +585,21 @@ func c16Policy(t *testing.T, in c16Input) Record {
 		if cls == 0 && nreq > 0 {
 			cls = 4
 		}
+		// the service activates a new version of the name (if it has it); the poll must bring it to whatever the
+		// call handed out - a handle, or an Updater (whose watcher was registered on the declared name, or on
+		// the name this very NewUpdater looked up)
+		svc.bump(in.Name, bumpTok)
 		st.Refresh(ctx)
+		if again != nil {
+			func() {
+				defer func() {
+					if recover() != nil {
+						afterTok = 999998
+					}
+				}()
+				afterTok = again()
+			}()
+		}
 		svc.mu.Lock()
 		aPolled = svc.polled[in.Name]
 		svc.mu.Unlock()
@@ -565,11 +614,21 @@ func c16Policy(t *testing.T, in c16Input) Record {
 	if in.HTTP {
 		tags = append(tags, "policy-over-real-client")
 	}
+	if in.EP == 2 && (cls == 0 || cls == 4) {
+		if cls == 0 {
+			tags = append(tags, "updater-on-a-declared-name")
+		} else {
+			tags = append(tags, "updater-registered-through-its-own-lookup-flight")
+		}
+		if afterTok == bumpTok {
+			tags = append(tags, "updater-saw-the-version-activated-afterwards")
+		}
+	}
 	rec := Record{Kind: "policy", Input: in, Obs: map[string]any{"class": cls, "requests": nreq, "token": tok,
-		"secret_after": aSecret, "requests_of_second_lookup": nreq2, "polled_after": aPolled, "cached_after": aCached},
+		"secret_after": aSecret, "requests_of_second_lookup": nreq2, "polled_after": aPolled, "cached_after": aCached, "token_after_new_version_and_poll": afterTok},
 		Key: fmt.Sprintf("policy:%v:%d:%s:%v:%v", in.Allow, in.EP, in.Name, in.CFail, in.HTTP), Nontrivial: in.Name != "a",
 		Tags: tags,
-		Coq: c16RenderPolicy(in, svcHas, cls, nreq, tok, aSecret, nreq2, aPolled, aCached)}
+		Coq: c16RenderPolicy(in, svcHas, cls, nreq, tok, aSecret, nreq2, aPolled, aCached) + fmt.Sprintf(" %d %d", bumpTok, afterTok)}
 	return rec
 }
 
@@ -701,40 +760,66 @@ type c16FlightObs struct {
 	FlCached bool `json:"cached_right_after_flush"`
 	AfterReq bool `json:"next_lookup_sends_request"`
 	Stuck    []string `json:"requests_still_open_after_every_caller_returned,omitempty"`
+	Stores   int      `json:"stores_in_process"`
+	BumpTok  int      `json:"token_of_the_version_activated_afterwards"`
+	After    []int    `json:"token_served_to_each_caller_after_that_and_a_poll"`
+}
+
+// one Store of the process with everything that is its own: service, client, cache
+type c16Env struct {
+	svc   *c16Svc
+	cache *c16Cache
+	st    *setec.Store
+	names int
 }
 
 func c16RunFlights(t *testing.T, in c16Input) []c16FlightObs {
 	obs := make([]c16FlightObs, len(in.Flights))
 	bubble(t, func(t *testing.T) {
-		svc := c16NewSvc()
-		defer svc.finish()
-		svc.t0 = time.Now()
+		nst := 1
 		for _, f := range in.Flights {
-			svc.scripts[f.Name] = append([]c16Script(nil), f.Scripts...)
+			if f.Store+1 > nst {
+				nst = f.Store + 1
+			}
 		}
 		ctx, cancel := context.WithCancel(context.Background())
 		defer cancel()
-		cache := &c16Cache{failFor: map[string]int{}}
-		for _, f := range in.Flights {
-			cache.failFor[f.Name] = f.CacheFail
+		t0 := time.Now()
+		envs := make([]*c16Env, nst)
+		for k := range envs {
+			e := &c16Env{svc: c16NewSvc(), cache: &c16Cache{failFor: map[string]int{}}}
+			defer e.svc.finish()
+			e.svc.t0 = t0
+			for _, f := range in.Flights {
+				if f.Store == k {
+					e.svc.scripts[f.Name] = append([]c16Script(nil), f.Scripts...)
+					e.cache.failFor[f.Name] = f.CacheFail
+					e.names++
+				}
+			}
+			st, err := setec.NewStore(ctx, setec.StoreConfig{Client: c16ClientFor(e.svc, in.HTTP), Secrets: []string{"a"}, AllowLookup: true,
+				PollInterval: -1, Cache: e.cache, Logf: func(string, ...any) {}})
+			if err != nil {
+				return
+			}
+			defer st.Close()
+			e.st = st
+			e.svc.mu.Lock()
+			e.svc.logging = true
+			e.svc.mu.Unlock()
+			envs[k] = e
 		}
-		st, err := setec.NewStore(ctx, setec.StoreConfig{Client: c16ClientFor(svc, in.HTTP), Secrets: []string{"a"}, AllowLookup: true,
-			PollInterval: -1, Cache: cache, Logf: func(string, ...any) {}})
-		if err != nil {
-			return
-		}
-		defer st.Close()
-		svc.mu.Lock()
-		svc.logging = true
-		svc.mu.Unlock()
 		// watchdog: a caller the implementation never releases is cancelled after 10^7 ms (far beyond
 		// every instant of the scenario) so that the run ends and the late return is recorded
 		wctx, wcancel := context.WithCancel(context.Background())
 		wd := time.AfterFunc(10_000_000*time.Millisecond, wcancel)
 		var wg sync.WaitGroup
+		again := make([][]func() int, len(in.Flights))
 		for fi, f := range in.Flights {
+			e := envs[f.Store]
 			obs[fi].Name = f.Name
 			obs[fi].Results = make([]c16Res, len(f.Callers))
+			again[fi] = make([]func() int, len(f.Callers))
 			for ci, c := range f.Callers {
 				wg.Add(1)
 				go func() {
@@ -743,7 +828,7 @@ func c16RunFlights(t *testing.T, in c16Input) []c16FlightObs {
 					cctx := context.WithValue(wctx, c16Key{}, ci)
 					if c.Dl > 0 {
 						var cf context.CancelFunc
-						cctx, cf = context.WithDeadline(cctx, svc.t0.Add(time.Duration(c.Dl)*time.Millisecond))
+						cctx, cf = context.WithDeadline(cctx, t0.Add(time.Duration(c.Dl)*time.Millisecond))
 						defer cf()
 					}
 					if c.Cn > 0 {
@@ -760,10 +845,11 @@ func c16RunFlights(t *testing.T, in c16Input) []c16FlightObs {
 								r.Class = 9
 							}
 						}()
-						tok, isNil, err := c16Call(cctx, st, c.EP, f.Name)
+						tok, isNil, re, err := c16Call2(cctx, e.st, c.EP, f.Name)
 						switch {
 						case err == nil && !isNil:
 							r.Class, r.Tok = 0, tok
+							again[fi][ci] = re
 						case err == nil:
 							r.Class = 7
 						case errors.Is(err, c16ErrService):
@@ -778,7 +864,7 @@ func c16RunFlights(t *testing.T, in c16Input) []c16FlightObs {
 							r.Class = 1
 						}
 					}()
-					r.T = svc.ms()
+					r.T = e.svc.ms()
 					obs[fi].Results[ci] = r
 				}()
 			}
@@ -790,52 +876,81 @@ func c16RunFlights(t *testing.T, in c16Input) []c16FlightObs {
 		// every caller has returned and every context of the scenario has ended: a request that is still
 		// waiting does not follow its caller's context.  Release it (so that the bubble can drain and the
 		// run goes on) and report it.
-		stuck := svc.release()
-		synctest.Wait()
-		for fi := range in.Flights {
-			obs[fi].Stuck = stuck
+		for k, e := range envs {
+			stuck := e.svc.release()
+			for fi, f := range in.Flights {
+				if f.Store == k {
+					obs[fi].Stuck = stuck
+				}
+			}
 		}
+		synctest.Wait()
 		for fi, f := range in.Flights {
+			e := envs[f.Store]
 			func() {
 				defer func() { recover() }()
-				obs[fi].Secret = st.Secret(f.Name) != nil
+				obs[fi].Secret = e.st.Secret(f.Name) != nil
 			}()
-			obs[fi].Cached = cache.has(f.Name)
-			obs[fi].Solo = len(in.Flights) == 1
-			obs[fi].FlSeen, obs[fi].FlOK, obs[fi].FlTok, obs[fi].FlCached = cache.firstWith(f.Name)
+			obs[fi].Cached = e.cache.has(f.Name)
+			obs[fi].Solo = e.names == 1
+			obs[fi].Stores = nst
+			obs[fi].FlSeen, obs[fi].FlOK, obs[fi].FlTok, obs[fi].FlCached = e.cache.firstWith(f.Name)
 		}
 		// the scenario proper is over: from here on the service answers every plain Get at once (the real
-		// client turns a conditional get for version 0 into a plain Get - a poll request all the same)
-		svc.mu.Lock()
-		svc.after = true
-		svc.mu.Unlock()
-		st.Refresh(ctx)
-		// one more LookupSecret per name: does it send a request?  (answered "not found" at once)
-		svc.mu.Lock()
-		svc.after = false
-		svc.probe = true
-		svc.mu.Unlock()
+		// client turns a conditional get for version 0 into a plain Get - a poll request all the same).
+		// Each service now ACTIVATES A NEW VERSION of every name it has answered for, and a poll follows:
+		// every handle and every Updater handed out by the scenario must then serve the new bytes (an
+		// Updater only if its watcher was registered - also when the registration went through the lookup).
 		for fi, f := range in.Flights {
-			svc.mu.Lock()
-			b0 := svc.nget
-			svc.mu.Unlock()
+			obs[fi].BumpTok = 900 + fi
+			envs[f.Store].svc.bump(f.Name, obs[fi].BumpTok)
+		}
+		for _, e := range envs {
+			e.svc.mu.Lock()
+			e.svc.after = true
+			e.svc.mu.Unlock()
+			e.st.Refresh(ctx)
+		}
+		for fi, f := range in.Flights {
+			obs[fi].After = make([]int, len(f.Callers))
+			for ci := range f.Callers {
+				if re := again[fi][ci]; re != nil {
+					func() {
+						defer func() {
+							if recover() != nil {
+								obs[fi].After[ci] = 999998
+							}
+						}()
+						obs[fi].After[ci] = re()
+					}()
+				}
+			}
+		}
+		// one more LookupSecret per name: does it send a request?  (answered "not found" at once)
+		for _, e := range envs {
+			e.svc.mu.Lock()
+			e.svc.after = false
+			e.svc.probe = true
+			e.svc.mu.Unlock()
+		}
+		for fi, f := range in.Flights {
+			e := envs[f.Store]
+			e.svc.mu.Lock()
+			b0 := e.svc.nget
+			e.svc.mu.Unlock()
 			func() {
 				defer func() { recover() }()
 				c2, cf := context.WithTimeout(ctx, time.Second)
 				defer cf()
-				st.LookupSecret(c2, f.Name)
+				e.st.LookupSecret(c2, f.Name)
 			}()
-			svc.mu.Lock()
-			obs[fi].AfterReq = svc.nget > b0
-			svc.mu.Unlock()
+			e.svc.mu.Lock()
+			obs[fi].AfterReq = e.svc.nget > b0
+			obs[fi].Polled = e.svc.polled[f.Name]
+			obs[fi].Log = e.svc.log[f.Name]
+			obs[fi].MaxConc = e.svc.maxc[f.Name]
+			e.svc.mu.Unlock()
 		}
-		svc.mu.Lock()
-		for fi, f := range in.Flights {
-			obs[fi].Polled = svc.polled[f.Name]
-			obs[fi].Log = svc.log[f.Name]
-			obs[fi].MaxConc = svc.maxc[f.Name]
-		}
-		svc.mu.Unlock()
 	})
 	return obs
 }
@@ -915,13 +1030,23 @@ func c16RenderFlightK(f c16Flight, o c16FlightObs, overHTTP bool) (string, int) 
 	for i := range sc {
 		sc[i] = "(" + sc[i] + ")"
 	}
+	eps := make([]string, len(f.Callers))
+	aft := make([]string, len(f.Callers))
+	for i, c := range f.Callers {
+		eps[i] = fmt.Sprint(c.EP)
+		aft[i] = "0"
+		if i < len(o.After) {
+			aft[i] = fmt.Sprint(o.After[i])
+		}
+	}
 	ctor := "CFlight"
 	if overHTTP {
 		ctor = "CFlightH"
 	}
 	return fmt.Sprintf(ctor+" %s %s %s %s %s %s %s %d %s %s %s", c16Decl, coqBytes([]byte(f.Name)), coqList(cs), coqList(sc),
 		coqList(wins), coqList(res), coqList(lg), o.MaxConc, coqBool(o.Secret), coqBool(o.Polled), coqBool(o.Cached)) +
-		fmt.Sprintf(" %s %s %s %d %s %s", coqBool(o.Solo), coqBool(o.FlSeen), coqBool(o.FlOK), o.FlTok, coqBool(o.FlCached), coqBool(o.AfterReq)), retries
+		fmt.Sprintf(" %s %s %s %d %s %s", coqBool(o.Solo), coqBool(o.FlSeen), coqBool(o.FlOK), o.FlTok, coqBool(o.FlCached), coqBool(o.AfterReq)) +
+		fmt.Sprintf(" %s %d %s", coqList(eps), o.BumpTok, coqList(aft)), retries
 }
 
 // the service's versions: the model's SAns carries the version the service will assign; the
@@ -958,6 +1083,68 @@ func c16Flights(t *testing.T, in c16Input) []Record {
 		}
 		if obs[fi].FlSeen && obs[fi].FlOK {
 			tags = append(tags, "lookup-flush-landed")
+		}
+		// how each successful NewUpdater caller's watcher came to be registered
+		for ci, c := range f.Callers {
+			if c.EP != 2 || ci >= len(obs[fi].Results) || obs[fi].Results[ci].Class != 0 {
+				continue
+			}
+			owner := false
+			for _, l := range obs[fi].Log {
+				var o int
+				var at int64
+				if n, _ := fmt.Sscanf(l, "MStart %d %d", &o, &at); n == 2 && o == ci {
+					owner = true
+				}
+			}
+			switch {
+			case owner:
+				tags = append(tags, "updater-registered-through-its-own-lookup-flight")
+			case obs[fi].Results[ci].T == c.Arr:
+				tags = append(tags, "updater-on-a-name-looked-up-earlier")
+			default:
+				tags = append(tags, "updater-registered-after-joining-another-callers-flight")
+			}
+			if ci < len(obs[fi].After) && obs[fi].After[ci] == obs[fi].BumpTok {
+				tags = append(tags, "updater-saw-the-version-activated-afterwards")
+			}
+		}
+		if obs[fi].Stores > 1 {
+			tags = append(tags, fmt.Sprintf("stores-in-process=%d", obs[fi].Stores))
+			// did a request of ANOTHER store for the same name overlap one of ours?
+			type iv struct{ a, b int64 }
+			ivs := func(log []string) []iv {
+				var out []iv
+				var start int64 = -1
+				for _, l := range log {
+					var o int
+					var at int64
+					if n, _ := fmt.Sscanf(l, "MStart %d %d", &o, &at); n == 2 {
+						start = at
+					} else if n, _ := fmt.Sscanf(l, "MEnd %d %d", &o, &at); n == 2 && start >= 0 {
+						out = append(out, iv{start, at})
+						start = -1
+					}
+				}
+				return out
+			}
+			mine := ivs(obs[fi].Log)
+			overlap := false
+			for fj, g := range in.Flights {
+				if fj == fi || g.Name != f.Name || g.Store == f.Store {
+					continue
+				}
+				for _, x := range ivs(obs[fj].Log) {
+					for _, y := range mine {
+						if x.a < y.b && y.a < x.b {
+							overlap = true
+						}
+					}
+				}
+			}
+			if overlap {
+				tags = append(tags, "same-name-requested-by-two-stores-at-once")
+			}
 		}
 		if in.HTTP {
 			tags = append(tags, "over-real-client")
@@ -1318,6 +1505,81 @@ func runC16(o Opts) {
 				selfSrc = append(selfSrc, recs[0])
 			}
 		}
+		// ---- TWO (or three) Stores in one process, each with its own service (own bytes for the same name, or a
+		// service that denies / lacks it), looking up the SAME name in overlapping windows: lookups are
+		// coalesced per store, so each store sends its own request and installs its own service's answer
+		nts := 120
+		if o.Tier == "thorough" {
+			nts = 2500
+		}
+		if o.N > 0 {
+			nts = o.N / 3
+		}
+		for k := 0; k < nts; k++ {
+			r := NewRand(o.Seed, uint64(5600+k))
+			in := c16Input{Kind: "flight", HTTP: r.IntN(4) == 0}
+			nstores := 2
+			if r.IntN(7) == 0 {
+				nstores = 3
+			}
+			first := c16GenFlight(r, "x")
+			// the first store's request is held for a while (a slow answer, a slow failure, or a hang)
+			switch x := r.IntN(10); {
+			case x < 5:
+				first.Scripts[0] = c16Script{Kind: "ans", Delay: int64(20005 + 10*r.IntN(4000)), Tok: 1 + r.IntN(50)}
+			case x < 7:
+				first.Scripts[0] = c16Script{Kind: "fail", Delay: int64(20005 + 10*r.IntN(4000))}
+			default:
+				first.Scripts[0] = c16Script{Kind: "hang"}
+			}
+			minArr := first.Callers[0].Arr
+			for _, c := range first.Callers {
+				if c.Arr < minArr {
+					minArr = c.Arr
+				}
+			}
+			in.Flights = append(in.Flights, first)
+			for st := 1; st < nstores; st++ {
+				f := c16GenFlight(r, "x")
+				for si := range f.Scripts {
+					if f.Scripts[si].Kind == "ans" {
+						f.Scripts[si].Tok += 50 * st // other bytes than the other service's
+					}
+				}
+				// its first caller arrives while the first store's request is in flight
+				m := f.Callers[0].Arr
+				for _, c := range f.Callers {
+					if c.Arr < m {
+						m = c.Arr
+					}
+				}
+				delta := minArr + int64(10*(1+r.IntN(1500))) - m
+				if m+delta > 0 {
+					for ci := range f.Callers {
+						f.Callers[ci].Arr += delta
+						if f.Callers[ci].Dl > 0 {
+							f.Callers[ci].Dl += delta
+						}
+						if f.Callers[ci].Cn > 0 {
+							f.Callers[ci].Cn += delta
+						}
+					}
+				}
+				f.Store = st
+				in.Flights = append(in.Flights, f)
+			}
+			if r.IntN(2) == 0 { // the mirror image: the held request belongs to the LAST store
+				for fi := range in.Flights {
+					in.Flights[fi].Store = nstores - 1 - in.Flights[fi].Store
+				}
+			}
+			if r.IntN(5) == 0 { // and another name in one of the stores
+				g := c16GenFlight(r, "y")
+				g.Store = r.IntN(nstores)
+				in.Flights = append(in.Flights, g)
+			}
+			runOne(in, false)
+		}
 		// ---- the same through the REAL network client (client/setec/client.go) over a scripted HTTP transport
 		for _, allow := range []bool{false, true} {
 			for ep := 0; ep < 4; ep++ {
@@ -1450,7 +1712,7 @@ func runC16(o Opts) {
 			in := rec.Input.(c16Input)
 			if rec.Kind == "policy" {
 				// pretend the lookup failed because the cache refused the write
-				st.Coq = c16RenderPolicy(in, "(Some (7, 5))", 3, 1, 0, true, 0, true, false)
+				st.Coq = c16RenderPolicy(in, "(Some (7, 5))", 3, 1, 0, true, 0, true, false) + " 950 0"
 			} else {
 				ob := rec.Obs.(c16FlightObs)
 				fi := 0
@@ -1481,7 +1743,7 @@ func runC16(o Opts) {
 			} else if rec.Kind == "policy" {
 				in := rec.Input.(c16Input)
 				// pretend the refused lookup had sent a request
-				st.Coq = c16RenderPolicy(in, "(Some (7, 5))", 3, 1, 0, false, 0, false, false)
+				st.Coq = c16RenderPolicy(in, "(Some (7, 5))", 3, 1, 0, false, 0, false, false) + " 950 0"
 			} else {
 				in := rec.Input.(c16Input)
 				ob := rec.Obs.(c16FlightObs)
